@@ -81,6 +81,7 @@ func init() {
 		Assumptions: []string{"integer operands without overflow (as the property allows); float64 operands over the rationals in half units (NaN/Inf not modelled); literals: decimal or octal integer literals of up to 3 digits"}}
 	properties["C12"] = &property{ID: "C12", Level: "model_checking", Kinds: []string{"claim"}, Extra: runRuleTV("C12"), ReplayExtra: replayRuleTV,
 		Harnesses: []harness{
+			{Name: "gsxC12CaseOrder", Pkg: "checkers", Quick: map[string]int{"K": 2, "strlen": 6, "paths": 3000, "wall_s": 60}, NoValidate: true, Tolerant: true, ReplayFn: replayCaseOrder, MustReach: []string{"first switch", "reported", "second switch"}},
 			{Name: "gsxC12BadCond", Pkg: "checkers", Solver: "z3", Quick: map[string]int{"paths": 4000, "wall_s": 60}, NoValidate: true, Tolerant: true, ReplayFn: replayC12BadCond, MustReach: []string{"always false"}},
 			{Name: "gsxC12NilValReturn", Pkg: "checkers", Solver: "z3", Quick: map[string]int{"paths": 4000, "wall_s": 60}, NoValidate: true, ReplayFn: replayNilValReturn, MustReach: []string{"visited", "reported"}},
 			{Name: "gsxC12DupSubExpr", Pkg: "checkers", Solver: "z3", Quick: map[string]int{"paths": 4000, "wall_s": 60}, NoValidate: true, ReplayFn: replayDupSubExpr, MustReach: []string{"visited", "reported"}},
